@@ -34,9 +34,9 @@ def base_file(fmt, variant):
     args = []
     ctrl = []
     if fmt == "hrs":
-        w, h = 8, 3
+        w, h = {"small": (8, 3), "odd": (7, 6), "odd-wide": (319, 4), "one": (1, 5), "default": (320, 192)}[variant]
         data = M.enc_hrs(M.rand_pixels(rng, w, h, "random"), pal, w, h)
-        args = ["-w", "8", "-r", "3"]
+        args = [] if variant == "default" else ["-w", str(w), "-r", str(h)]
         ctrl = list(range(16))
     elif fmt == "pix":
         data = M.enc_pix(M.rand_pixels(rng, 6, 6, "random"), 6)
@@ -47,6 +47,12 @@ def base_file(fmt, variant):
             data = M.enc_max(bits, cols, rows, True)
             args = ["-newsroom"]
             ctrl = [0, 1]
+        elif variant == "odd-bytes":
+            cols, rows = 24, 5
+            bits = M.rand_pixels(rng, cols, rows, "random", 2)
+            data = M.enc_max(bits, cols, rows)
+            args = ["-w", "24", "-rb"]
+            ctrl = [0, 1, 2, 3, 4]
         elif variant == "ignore":
             data = M.enc_max(bits, cols, rows)
             args = ["-w", "16", "-i"]
@@ -91,7 +97,7 @@ def base_file(fmt, variant):
 
 
 VARIANTS = {
-    "hrs": ["small"], "pix": ["small"], "max": ["hdr5", "br2", "newsroom", "ignore"], "mge": ["rle", "raw", "cmp"],
+    "hrs": ["small", "odd", "odd-wide", "one", "default"], "pix": ["small"], "max": ["hdr5", "br2", "newsroom", "ignore", "odd-bytes"], "mge": ["rle", "raw", "cmp"],
     "rat": ["flat", "rows"], "cm3": ["one-coded", "one-raw", "two-coded-nopat", "two-raw"],
     "vef": ["t0s", "t0r", "t1s", "t1r", "t3s", "t3r"],
 }
@@ -165,11 +171,13 @@ def cases(tier, seed):
                 step = 1
             else:
                 step = max(1, L // (40 if q else 1500))
-            positions = set(range(0, L, step)) | set(range(0, min(L, 60))) | {L - 1, L - 2} | set(i + 1 for i in ctrl)
+            positions = set(range(0, L, step)) | set(range(0, min(L, 60))) | set(range(max(0, L - 40), L)) | set(i + 1 for i in ctrl)
             for pos in sorted(p for p in positions if 0 <= p < L):
                 n += 1
                 yield {"fmt": fmt, "variant": variant, "damage": "prefix", "pos": pos, "sample": n % 500 == 1}
             cpos = ctrl if (not q or len(ctrl) <= 40) else ctrl[:30] + ctrl[30::max(1, len(ctrl) // 20)]
+            # the control bytes of the LAST runs are always damaged too (a stretched final run overshoots the picture)
+            cpos = sorted(set(cpos) | set(sorted(ctrl)[-8:]))
             for pos in cpos:
                 for val in (0, 1, 127, 128, 255, "+1", "-1"):
                     if q and val in (1, 127) and pos > 20:
